@@ -569,6 +569,13 @@ def execute_steer(sc):
             if not np.isfinite(cj) or wp <= 0:
                 continue
             tc = wj / wp
+            if cj == 0.0 and tc > 1e-250 and sc['tkind'] in ('rareslice', 'normal', 'pos'):
+                # tensors of these kinds have no cancellation: a weight that is tiny but not zero is computed to full relative
+                # accuracy, an index with a non-zero (squared) entry can never be given the conditional probability zero
+                V.append(viol('probability', '%s: after the prefix %s the index %d of mode %d has conditional probability exactly 0 but the tensor defines %.6e'
+                              % (fn, list(mi[:j]), mi[j], j, tc)))
+                bad_step = None
+                break
             kap = max(float(Wabs[mi[:j]].sum()) / wp, float(Wabs[mi[:j + 1]].sum()) / max(wj, 1e-300))
             # absolute rounding of the representation the sampler works with: relative to the prefix weight for `sample`, relative to the
             # prefix amplitude (square root of its weight) for the squared sampler, which carries amplitudes
@@ -577,6 +584,8 @@ def execute_steer(sc):
                     + 1e3 * 2.2e-16 * amp:
                 bad_step = (j, cj, tc)
                 break
+        if V:
+            break
         if bad_step is not None:
             V.append(viol('probability', '%s: after the prefix %s the index %d of mode %d is drawn with conditional probability %.12e but the tensor defines %.12e '
                           '(prefix weight %.3e of a total of %.3e)' % (fn, list(mi[:bad_step[0]]), mi[bad_step[0]], bad_step[0], bad_step[1], bad_step[2],
